@@ -120,7 +120,7 @@ func (r *request) buildHTTP(mediaType, basePath string, producers map[string]run
 	r.buf = bytes.NewBuffer(nil)
 	if r.payload != nil || len(r.formFields) > 0 || len(r.fileFields) > 0 {
 		body = r.buf
-		if r.isMultipart(mediaType) {
+		if (len(r.formFields) > 0 || len(r.fileFields) > 0) && r.isMultipart(mediaType) {
 			pr, pw = io.Pipe()
 			body = pr
 		}
